@@ -98,6 +98,9 @@ def run(ctx):
         terms = typical_terms(range(Y - 2, Y + 5))
         return Y, months, terms
     scen = [scenario({}), scenario({2000: 4}), scenario({2000: 12}), scenario({2000: 11, 2001: 3})]
+    # month numbers running a lunation early, as in the library's AD 9-23 window: the winter solstice of December 2000 then falls on the 8th of
+    # month 12 and shares the day with the 12/08 festival, which is listed AFTER the winter-solstice festival
+    scen.append((2000, synthetic_months(1999, CAL.jdn(1999, 2, 6), 4, leap={}, prev_months=3, auto_leap=False), typical_terms(range(1998, 2005))))
 
     def lf(x):
         si, y, i = x
